@@ -335,7 +335,7 @@ func (p *Path) recordViolation(kind, label, detail string, m *Machine) {
 	v := Violation{Label: label, Kind: kind, Detail: detail, PathLen: len(p.Trace), Regions: append([]string(nil), p.Regions...)}
 	if m != nil {
 		v.Stack = m.stackString()
-		v.Scheduled = m.preemptHit
+		v.Scheduled = m.preemptHit || m.preemptEver
 	}
 	if err != nil {
 		v.Detail += " (model error: " + err.Error() + ")"
